@@ -10,37 +10,51 @@ import (
 	"github.com/miekg/dns"
 )
 
-// isBlockedByAccess returns true if req is blocked by global or profile access
-// settings.
-func (mw *Middleware) isBlockedByAccess(
+// isBlockedGlobally returns true if req is blocked by the global access
+// settings.  It only uses the request and the address of the client, so that it
+// can be called before the device lookup.
+func (mw *Middleware) isBlockedGlobally(
 	ctx context.Context,
-	ri *agd.RequestInfo,
 	req *dns.Msg,
-	raddr netip.AddrPort,
+	remoteIP netip.Addr,
 ) (isBlocked bool) {
 	// Use the same normalization as the profile access engine, so that queries
 	// for the root domain are matched against the global rules as well.
-	host := agdnet.NormalizeQueryDomain(req.Question[0].Name)
+	q := req.Question[0]
+	host := agdnet.NormalizeQueryDomain(q.Name)
 
-	// NOTE:  Global access has priority over the profile one.
-	if mw.accessManager.IsBlockedIP(raddr.Addr()) {
+	if mw.accessManager.IsBlockedIP(remoteIP) {
 		mw.metrics.IncrementAccessBlockedBySubnet(ctx)
-		optslog.Debug1(ctx, mw.logger, "access denied globally by ip", "remote_ip", ri.RemoteIP)
+		optslog.Debug1(ctx, mw.logger, "access denied globally by ip", "remote_ip", remoteIP)
 
 		return true
-	} else if mw.accessManager.IsBlockedHost(host, ri.QType) {
+	} else if mw.accessManager.IsBlockedHost(host, q.Qtype) {
 		mw.metrics.IncrementAccessBlockedByHost(ctx)
 		optslog.Debug2(
 			ctx,
 			mw.logger,
 			"access denied globally by rule",
-			"remote_ip", ri.RemoteIP,
-			"host", ri.Host,
+			"remote_ip", remoteIP,
+			"host", host,
 		)
 
 		return true
 	}
 
+	return false
+}
+
+// isBlockedByProfile returns true if req is blocked by the access settings of
+// the profile in ri, if any.
+//
+// NOTE:  Global access has priority over the profile one, see
+// [Middleware.isBlockedGlobally].
+func (mw *Middleware) isBlockedByProfile(
+	ctx context.Context,
+	ri *agd.RequestInfo,
+	req *dns.Msg,
+	raddr netip.AddrPort,
+) (isBlocked bool) {
 	p, _ := ri.DeviceData()
 	if p == nil {
 		return false
